@@ -10,6 +10,7 @@
 //	ta  GetNow, process dies inside Delete after the file is removed (then restart)
 //	r   restart (new pool over the same storage)   rf  restart, ReadAll fails
 //	gt  generate, process dies inside Save leaving an empty file (ppool family, see ppool.go)
+//	gx  a valid parameter file appears on storage under a non-canonical name (not via Save)
 //
 // Obs line: outs=<per-step result> counts=<ParametersCount after each step> disk=<ids on storage>
 //
@@ -33,6 +34,7 @@ import (
 	"strconv"
 	"strings"
 	"sync"
+	"sync/atomic"
 	"time"
 
 	"keepverif/harness/hx"
@@ -76,7 +78,10 @@ func (s *store) Save(p *param) (*persisted, error) {
 		s.put(id, p.V)
 	}
 	s.mu.Unlock()
-	s.saved <- struct{}{}
+	select {
+	case s.saved <- struct{}{}:
+	default: // nobody is waiting for this Save (only code that saves on its own initiative gets here)
+	}
 	if err != nil {
 		return nil, err
 	}
@@ -155,6 +160,11 @@ func (s *store) ResetFaults() {
 func (s *store) Crashed() bool         { s.mu.Lock(); defer s.mu.Unlock(); return s.crashed }
 func (s *store) Saved() chan struct{}  { return s.saved }
 func (s *store) BeforeRestart()        {}
+func (s *store) PutExternal(v int) {
+	s.mu.Lock()
+	s.put(fmt.Sprintf("id%d", v), v)
+	s.mu.Unlock()
+}
 func (s *store) Has(v int) bool {
 	s.mu.Lock()
 	defer s.mu.Unlock()
@@ -201,6 +211,7 @@ type backend[T any] interface {
 	Has(v int) bool
 	Disk() []int
 	BeforeRestart()
+	PutExternal(v int) // a valid parameter file appears on storage under a non-canonical name
 }
 
 var quietLogger = func() logging.StandardLogger {
@@ -232,6 +243,17 @@ func (in *instance[T]) generate(ctx context.Context) *T {
 	}
 }
 
+// sendCmd hands the next command to the generator goroutine, which the unchanged code always
+// picks up (it is waiting in generateFn).
+func sendCmd(ch chan genCmd, c genCmd) bool {
+	select {
+	case ch <- c:
+		return true
+	case <-time.After(longWait()):
+		return false
+	}
+}
+
 func waitCh(ch chan struct{}, d time.Duration) bool {
 	select {
 	case <-ch:
@@ -241,7 +263,17 @@ func waitCh(ch chan struct{}, d time.Duration) bool {
 	}
 }
 
-const long = 15 * time.Second
+// waiting for a goroutine handoff that the unchanged code always performs; a mutant that never
+// performs it costs this much per case, so after a few stuck cases the wait is shortened.
+var stuckCases int32
+
+func longWait() time.Duration {
+	if atomic.LoadInt32(&stuckCases) >= 3 {
+		return 400 * time.Millisecond
+	}
+	return 4 * time.Second
+}
+
 const blockedProbe = 1500 * time.Millisecond
 
 func execPool(f []string) (string, string) {
@@ -252,7 +284,7 @@ func execPool(f []string) (string, string) {
 func runPool[T any](size int, steps []string, st backend[T]) (string, string) {
 	in := newInstance(st, size)
 	defer func() { in.sched.VerifC39Stop() }()
-	if !waitCh(in.ready, long) {
+	if !waitCh(in.ready, longWait()) {
 		return "STUCK start", "stuck"
 	}
 	next := 1
@@ -267,7 +299,7 @@ func runPool[T any](size int, steps []string, st backend[T]) (string, string) {
 		st.SetReadFail(readFail)
 		in = newInstance(st, size)
 		pending = false
-		return waitCh(in.ready, long)
+		return waitCh(in.ready, longWait())
 	}
 	panicked := false
 	for _, s := range steps {
@@ -280,8 +312,10 @@ func runPool[T any](size int, steps []string, st backend[T]) (string, string) {
 				break
 			}
 			if s == "gn" {
-				in.cmd <- genCmd{isNil: true}
-				if !waitCh(in.ready, long) {
+				if !sendCmd(in.cmd, genCmd{isNil: true}) {
+					return "STUCK cmd", "stuck"
+				}
+				if !waitCh(in.ready, longWait()) {
 					return "STUCK gn", "stuck"
 				}
 				out = "n"
@@ -296,9 +330,15 @@ func runPool[T any](size int, steps []string, st backend[T]) (string, string) {
 				st.SetSave("crashtorn")
 			}
 			full := in.pool.ParametersCount() >= size
-			in.cmd <- genCmd{v: next}
+			select { // forget a Save signal nobody asked for
+			case <-st.Saved():
+			default:
+			}
+			if !sendCmd(in.cmd, genCmd{v: next}) {
+				return "STUCK cmd", "stuck"
+			}
 			next++
-			if !waitCh(st.Saved(), long) {
+			if !waitCh(st.Saved(), longWait()) {
 				return "STUCK save", "stuck"
 			}
 			if s == "gc" || s == "gt" {
@@ -321,7 +361,7 @@ func runPool[T any](size int, steps []string, st backend[T]) (string, string) {
 			}
 			switch {
 			case !full:
-				if !waitCh(in.ready, long) {
+				if !waitCh(in.ready, longWait()) {
 					return "STUCK push", "stuck"
 				}
 			case full && !failed:
@@ -337,6 +377,17 @@ func runPool[T any](size int, steps []string, st backend[T]) (string, string) {
 				out += "p"
 				tags["blocked"] = true
 			}
+		case "gx":
+			// an operator copies a valid parameter file into the storage (not through Save)
+			if pending {
+				out = "b"
+				tags["busy"] = true
+				break
+			}
+			st.PutExternal(next)
+			next++
+			out = "f"
+			tags["external"] = true
 		case "t", "tf", "tb", "ta":
 			switch s {
 			case "tf":
@@ -386,7 +437,7 @@ func runPool[T any](size int, steps []string, st backend[T]) (string, string) {
 				tags["served"] = true
 			}
 			if !panicked && !crashed && pending && err != generator.ErrEmptyPool {
-				if !waitCh(in.ready, long) {
+				if !waitCh(in.ready, longWait()) {
 					return "STUCK unblock", "stuck"
 				}
 				pending = false
@@ -412,7 +463,7 @@ func runPool[T any](size int, steps []string, st backend[T]) (string, string) {
 	disk := st.Disk()
 	obs := "outs=" + hx.JoinStrs(outs) + " counts=" + hx.JoinInts(counts) + " disk=" + hx.JoinInts(disk)
 	var ts []string
-	for _, t := range []string{"served", "savefail", "delfail", "crash", "torn", "restart", "readfail", "blocked", "busy", "empty", "panic"} {
+	for _, t := range []string{"served", "savefail", "delfail", "crash", "torn", "restart", "readfail", "blocked", "busy", "empty", "external", "panic"} {
 		if tags[t] {
 			ts = append(ts, t)
 		}
@@ -424,6 +475,14 @@ func runPool[T any](size int, steps []string, st backend[T]) (string, string) {
 }
 
 func exec(op string) (string, string) {
+	obs, tag := exec1(op)
+	if tag == "stuck" {
+		atomic.AddInt32(&stuckCases, 1)
+	}
+	return obs, tag
+}
+
+func exec1(op string) (string, string) {
 	f := strings.Fields(op)
 	switch {
 	case len(f) == 3 && f[0] == "pool":
@@ -434,7 +493,7 @@ func exec(op string) (string, string) {
 	return "bad-op", "bad"
 }
 
-var stepKinds = []string{"g", "g", "g", "g", "gf", "gf", "gw", "gn", "gc", "t", "t", "t", "t", "tf", "tb", "ta", "r", "rf"}
+var stepKinds = []string{"g", "g", "g", "g", "gf", "gf", "gw", "gn", "gc", "gx", "t", "t", "t", "t", "tf", "tb", "ta", "r", "rf"}
 
 func gen(r *hx.Rng, n int, tier string) []string {
 	var ops []string
